@@ -244,14 +244,31 @@ func runC13(c *Ctx) {
 			// reachable only via len(rule.BackendRefs) != 0 or canaryRef == nil
 			start := Entry(fn)
 			reach, _ := CanReach(start, func(in ssa.Instruction) bool { return in == call.(ssa.Instruction) }, ReachOpts{CutEdge: func(b *ssa.BasicBlock, k int) bool {
-				return EdgeFactMatches(b, k, FCmp("!=", MLen(MField("BackendRefs")), MConst("0"))) ||
-					EdgeFactMatches(b, k, FNil(func(t *Term) bool {
+				return EdgeFactMatches(b, k, FOr(FCmp("!=", MLen(MField("BackendRefs")), MConst("0")),
+					FNil(func(t *Term) bool {
 						return t.Op == "extract" && NameMatch(t.Name, "gateway.getServiceBackendRef") && t.Idx == 1 && len(t.Args[0].Args) == 2 && t.Args[0].Args[1].Any(MField("CanaryService"))
-					}))
+					})))
 			}})
 			filtered := false
 			for _, f := range CallsIn(fn, "gateway.filterOutServiceBackendRef") {
 				if r, _ := CanReach(PointAfter(f.(ssa.Instruction)), func(in ssa.Instruction) bool { return in == call.(ssa.Instruction) }, ReachOpts{}); r {
+					filtered = true
+				}
+			}
+			// or inside a same-package helper that is called on the way and cannot return without filtering
+			for _, hc := range AllCalls(fn) {
+				h := hc.Common().StaticCallee()
+				if h == nil || h.Pkg != fn.Pkg || h.Blocks == nil || len(CallsIn(h, "gateway.filterOutServiceBackendRef")) == 0 {
+					continue
+				}
+				if r, _ := CanReach(PointAfter(hc.(ssa.Instruction)), func(in ssa.Instruction) bool { return in == call.(ssa.Instruction) }, ReachOpts{}); !r {
+					continue
+				}
+				skip, _ := CanReach(Entry(h), IsReturn, ReachOpts{CutInstr: func(in ssa.Instruction) bool {
+					ci, ok := in.(ssa.CallInstruction)
+					return ok && NameMatch(CalleeName(ci.Common()), "gateway.filterOutServiceBackendRef")
+				}})
+				if !skip {
 					filtered = true
 				}
 			}
